@@ -92,3 +92,17 @@ def wf_duration(d, unit_ok):
 
 def wf_span(a):
     return And(v(a, "mstart") >= 0, v(a, "mstart") < v(a, "mend"))
+
+
+def aux_interval(i):
+    """auxiliary inductive invariant of date-less clock ranges (needed for C07's 'never inverted'):
+    when both ends are plain times of day written in 12-hour range, the start hour is not after
+    the end hour -- ruleTODTOD establishes it by its am->pm shift, the other rules preserve it"""
+    from spec.views import only
+    fn, f = opt_obj(fld(i, "t_from"))
+    tn, t = opt_obj(fld(i, "t_to"))
+    if f is None or t is None:
+        return True
+    tod = lambda x: Or(only(x, "hour"), only(x, "hour", "minute"))
+    return Implies(And(Not(fn), Not(tn), tod(f), tod(t), v(f, "hour") <= 12, v(t, "hour") <= 12),
+                   v(f, "hour") <= v(t, "hour"))
